@@ -216,10 +216,15 @@ def after_call(ctx, r, call_args):
 
 
 def fault_cls(ctx, e, depth):
-    """class name of a caught exception; an OSError caused by an injected fault is just 'OSError'
-    (which subclass wraps it is not specified)"""
-    if isinstance(e, OSError) and ctx.fault_call is not None and len(ctx.fault_call) >= depth:
-        return 'OSError'
+    """class name of a caught exception; an OSError that is (or was raised while handling) the injected
+    fault is just 'OSError': which subclass wraps it is not specified"""
+    if isinstance(e, OSError):
+        x, seen = e, 0
+        while x is not None and seen < 10:
+            if type(x).__name__ == 'InjectedFault':
+                return 'OSError'
+            x = x.__cause__ or x.__context__
+            seen += 1
     return exc_cls(e)
 
 
